@@ -380,6 +380,9 @@ def _run_case(case, want_readback):
         if plc.connection_size != (conn["size"] if conn else plc.connection_size):
             run.add("C04", "connsize.mismatch", f"driver believes {plc.connection_size}, target granted {conn['size']}")
         reqs = case["reqs"]
+        for f in tgt.forced:
+            if "unitdata_after_open" in f.get("when", {}):   # counted from here: the frames of open() and the upload are behind us
+                f["when"]["unitdata"] = tgt.unitdata_n + f["when"]["unitdata_after_open"]
         forced_status = {f["when"]["tag"]: f["status"] for f in case.get("forced", []) if "tag" in f.get("when", {})}
         # the step budget only has to tell a terminating call from a non-terminating one: it grows with the amount of data the
         # requests legitimately move (a target may return fragments of a dozen bytes; everything is read up to three times)
